@@ -40,6 +40,10 @@ enum Kind {
     /// a print whose middle argument's `Display` impl itself prints a whole record (re-entrant use
     /// of the stream lock): `(outer goes to stderr, nested goes to stderr, outer through a macro)`
     Nested(bool, bool, bool),
+    /// a record printed from the destructor of a thread-local of the printing thread (first touched
+    /// before the thread's first print, so it is destroyed after anything the print path may keep
+    /// in thread-locals): `(goes to stderr)`
+    TlsDrop(bool),
     SetGlobal(u8),
     GetGlobal,
 }
@@ -167,6 +171,10 @@ fn generate(scen_seed: u64) -> Scenario {
                 }
             }
         }
+        // a spawned thread may print one more record while its thread-locals are being destroyed
+        if t >= 1 && rng.chance(1, 4) {
+            calls.push(Call { kind: Kind::TlsDrop(rng.chance(1, 2)), frags: frags(&mut rng, t, 8), nested: vec![] });
+        }
         threads.push(calls);
     }
     Scenario { pass: rng.chance(1, 2), register, first_touch: false, threads }
@@ -222,7 +230,32 @@ fn code_of(c: ColorChoice) -> u8 {
     }
 }
 
+/// Prints its record when the owning thread's locals are destroyed.
+struct DropPrint {
+    frags: Vec<String>,
+    err: bool,
+}
+impl Drop for DropPrint {
+    fn drop(&mut self) {
+        let f = &self.frags;
+        if self.err {
+            let _ = write!(anstream::stderr(), "{}{}{}", Frag(&f[0]), Frag(&f[1]), Frags(&f[2..]));
+        } else {
+            let _ = write!(anstream::stdout(), "{}{}{}", Frag(&f[0]), Frag(&f[1]), Frags(&f[2..]));
+        }
+    }
+}
+thread_local! {
+    static AT_THREAD_EXIT: std::cell::RefCell<Option<DropPrint>> = const { std::cell::RefCell::new(None) };
+}
+
 fn run_calls(sc: &Scenario, t: usize, bad: &std::sync::Mutex<Vec<String>>) {
+    // registered before this thread's first print
+    for call in &sc.threads[t] {
+        if let Kind::TlsDrop(err) = call.kind {
+            AT_THREAD_EXIT.with(|g| *g.borrow_mut() = Some(DropPrint { frags: call.frags.clone(), err }));
+        }
+    }
     let initial = if sc.pass { 1u8 } else { 0 };
     // every value any thread may write in this scenario
     let mut allowed: Vec<u8> = vec![initial];
@@ -277,6 +310,7 @@ fn run_calls(sc: &Scenario, t: usize, bad: &std::sync::Mutex<Vec<String>>) {
                     (true, false) => write!(anstream::stderr(), "{}{}{}", Frags(&f[..2]), n, Frags(&f[2..])).unwrap(),
                 }
             }
+            Kind::TlsDrop(_) => {} // printed when the thread's locals are destroyed
             Kind::SetGlobal(v) => choice_of(v).write_global(),
             Kind::GetGlobal => {
                 let v = code_of(ColorChoice::global());
@@ -736,7 +770,8 @@ fn expected_all(sc: &Scenario, call: &Call) -> Vec<(bool, Item)> {
 fn expected(sc: &Scenario, call: &Call) -> Option<(bool, Vec<Vec<u8>>)> {
     let raw = call.frags.concat();
     let (err, raw) = match call.kind {
-        Kind::Print | Kind::WriteOut | Kind::WriteAllOut | Kind::LockedOutGroup | Kind::DirectLockedOut | Kind::BorrowedOut => (false, raw),
+        Kind::Print | Kind::WriteOut | Kind::WriteAllOut | Kind::LockedOutGroup | Kind::DirectLockedOut | Kind::BorrowedOut | Kind::TlsDrop(false) => (false, raw),
+        Kind::TlsDrop(true) => (true, raw),
         Kind::Println => (false, raw + "\n"),
         Kind::Eprint | Kind::WriteAllErr | Kind::LockedErrGroup | Kind::BorrowedErr => (true, raw),
         Kind::Eprintln | Kind::WritelnErr => (true, raw + "\n"),
